@@ -303,9 +303,13 @@ func runC06Big(c *Ctx) {
 	}
 	for _, sh := range c.SelShapes() {
 		s := sh.Schema()
-		for _, codec := range []int{0, 1} {
-			for _, b := range hs {
+		for _, codec := range []int{0, 1, 2} {
+			for bi, b := range hs {
 				for _, kind := range []string{"uniform", "mixed"} {
+					if codec == 2 && (kind != "mixed" || bi > 1) {
+						// gzip: the two mixed histories only (page bodies far beyond one inflate window)
+						continue
+					}
 					id := fmt.Sprintf("%s/%s/big/%s/page=%d/h=%s", sh.Name, CodecNames[codec], kind, b.page, b.name)
 					if !c.Take(id) {
 						continue
